@@ -141,6 +141,12 @@ def run(ctx: Ctx, replay: str | None) -> None:
     for s in allscn[:1] + sscn[:2]:
         ctx.sample({k: s[k] for k in ("prog", "feats", "losses", "tparams", "shared", "k", "w", "expected")})
 
+    # implementation-shaped layer bound to the code (DRIFT only)
+    from ..stage_trace import validate_mtl_impl_layer
+    sample = list(allscn)
+    random.Random(ctx.seed).shuffle(sample)
+    validate_mtl_impl_layer(ctx, sample[: (150 if quick else 1500)], ctx.seed)
+
     from ..trace_mtl import random_episodes, validate
     eps = random_episodes(ctx.seed, 120 if quick else 1200)
     validate(ctx, eps, pid=PID)
